@@ -172,6 +172,24 @@ def check_packet(p, own, indeterminate=False):
             fail.append('[fixed] second serialisation differs from the first (octet %d of %d/%d)' % (_fd(s2, s1), len(s2), len(s1)))
     except Exception as ex:
         fail.append('[fixed] second serialisation raises %s' % type(ex).__name__)
+    # 'any field values reachable through its API': a field of a PARSED packet that is given another value is written with that value
+    # (no hidden copy of the octets that were read)
+    try:
+        want = None
+        if type(obj2).__name__ == 'UserID' and not getattr(obj2, '_encoding_fallback', False):
+            obj2.uid = 'Edited Name (after parsing) <edited@example.com>'
+            want = lambda body: body == obj2.uid.encode('utf-8')
+        elif type(obj2).__name__ == 'LiteralData':
+            obj2.filename = 'edited-name.bin'
+            want = lambda body: indep.literal(body)['filename'] == b'edited-name.bin'
+        if want is not None:
+            obj2.update_hlen()
+            s3 = bytes(obj2)
+            pk3 = indep.packets(s3)
+            if len(pk3) != 1 or pk3[0][2] != s3 or not want(pk3[0][1]):
+                fail.append('[edit] a field of the parsed %s given another value is not what is written (%s...)' % (type(obj2).__name__, s3[:24].hex()))
+    except Exception as ex:
+        fail.append('[edit] editing a field of the parsed packet and serialising raises %s: %s' % (type(ex).__name__, str(ex)[:60]))
     return res
 
 
